@@ -2,8 +2,10 @@
 import coqlit as L
 import gen as G
 import conv
+import syntax as SX
 
-COQ_IMPORTS = ['Model.CFG', 'Model.Chomsky', 'Model.CYK', 'Judge.C08_judge']
+COQ_IMPORTS = ['Model.CFG', 'Model.Chomsky', 'Model.CYK', 'Model.FreshName', 'Judge.Common', 'Judge.C08_judge', 'Judge.Extra_judge']
+EXTRA_JUDGES = ['Extra']
 RULE = ('grammars: all one-rule grammars and a seeded sample of 2-3-rule grammars from right-hand sides of length <= 2 over {S,A,a,b}; random grammars with nullable start, cyclic unit rules, duplicate rules, '
         'right-hand sides up to length 5, variables named like the fresh-name candidates (S0, A, B ...), and grammars with 24-30 variables; 2 (quick) / 8 (thorough) PYTHONHASHSEED values. '
         'Observed: the five phase functions and cfg_to_chomsky (non-in-place wrappers, input snapshot), the fresh names each call chose (cfg_fresh_variable wrapped in the worker), '
@@ -62,11 +64,15 @@ def observe(c):
     from implutil import safe, ok
     Gm = conv.cfg_obj(c['G'])
     log = []
+    calls = []
     orig = CA.cfg_fresh_variable
 
     def wrapped(Gx, hint):
+        V0 = sorted(str(v) for v in Gx.V)
         r = orig(Gx, hint)
         log.append(str(r))
+        if len(calls) < 6:
+            calls.append([V0, str(hint), None if r is None else str(r)])
         return r
     CA.cfg_fresh_variable = wrapped
     try:
@@ -91,7 +97,7 @@ def observe(c):
     for A in c['G']['V'][:6]:
         d = safe(CA.cfg_derivable_variables, Gm, Variable(A))
         deriv.append([A, sorted(str(v) for v in d[1]) if ok(d) else None])
-    return {'phases': phases, 'nullable': nullable, 'expand': expand, 'deriv': deriv}
+    return {'phases': phases, 'nullable': nullable, 'expand': expand, 'deriv': deriv, 'fresh_calls': calls}
 
 
 def _nm(c, o=None):
@@ -117,7 +123,11 @@ def encode(c, o):
     nullable = L.option(o['nullable'], lambda s: L.nats(nm(v) for v in s))
     expand = L.lst(L.pair(L.lst(L.csym(s, nm) for s in e['x']), L.nats(nm(v) for v in e['W']), L.option(e['r'], lambda r: L.lst(L.lst(L.csym(s, nm) for s in y) for y in r))) for e in o['expand'])
     deriv = L.lst(L.pair(L.nat(nm(A)), L.option(d, lambda s: L.nats(nm(v) for v in s))) for A, d in o['deriv'])
-    return 'judge_C08 %s %s %s %s %s %s' % (lit, L.nats(STREAM), L.lst(ph), nullable, expand, deriv)
+    main = 'judge_C08 %s %s %s %s %s %s' % (lit, L.nats(STREAM), L.lst(ph), nullable, expand, deriv)
+    # the concrete naming policy (Model/FreshName.v) on the calls the implementation made: same name, character by character
+    fresh = ['judge_fresh_variable %s %s %s' % (SX.toks(V0), SX.tok(hint), SX.opt_codes(r)) for V0, hint, r in o.get('fresh_calls', [])
+             if all(SX.codes(x) is not None for x in V0 + [hint] + ([r] if r is not None else []))]
+    return 'worst_code [%s]' % '; '.join([main] + fresh)
 
 
 def explain(c):
